@@ -48,7 +48,7 @@ def gen_form(rng, kind):
         return {"unit": rng.choice(["target", "target", "other"]), "dtype": "float64",
                 "shape": rng.choice(["0d", "1d", "view"]), "seed": rng.randrange(1 << 30), "n": rng.choice([1, 3, 8]),
                 "dim": rng.choice(["event", "event", "det"])}
-    return {"unit": rng.choice(["target", "other", "other"]),
+    return {"unit": rng.choice(["target", "other", "other"]), "choice": rng.randrange(8),
             "dtype": rng.choice(["float64", "float64", "float32", "int64"]),
             "shape": rng.choice(SHAPES), "seed": rng.randrange(1 << 30), "n": rng.choice([1, 3, 8, 16]),
             "dim": rng.choice(["event", "event", "det", "wavelength"])}
@@ -61,10 +61,14 @@ def build_arg(kind, form, dim=None):
     dim = dim or form.get("dim", "event")
     g = np.random.default_rng(form["seed"])
     n = form["n"]
+    if kind == "vec_dir":
+        return sc.vector([0.0, 0.0, 1.0]), None
     if kind in VEC_KINDS:
         unit = VEC_KINDS[kind] if form["unit"] == "target" else {"m": "mm", "1/angstrom": "1/nm",
                                                                  "m/s**2": "cm/s**2"}[VEC_KINDS[kind]]
         scale = {"mm": 1e3, "1/nm": 10.0, "cm/s**2": 100.0}.get(unit, 1.0)
+        if kind == "vec_dir":
+            return sc.vector([0.0, 0.0, 1.0]), None
         if kind == "gravity":
             base = np.array([[0.0, -9.81, 0.0]] * max(n, 1)) * scale
         elif kind == "vec_beam0":
@@ -81,6 +85,22 @@ def build_arg(kind, form, dim=None):
         return sc.vectors(dims=[dim], values=base[:n], unit=unit), None
     k = KINDS[kind]
     unit = k["target"] if form["unit"] == "target" else k["others"][form["seed"] % len(k["others"])]
+    if "fixed" in k:
+        # exact values (in the target unit) for arguments that must satisfy a relation; a list of
+        # lists offers boundary / degenerate alternatives selected by the form's choice index
+        fx = sc.to_unit(sc.scalar(1.0, unit=k["target"]), unit).value
+        fixed = k["fixed"]
+        if fixed and isinstance(fixed[0], list):
+            fixed = fixed[form.get("choice", form["seed"] // 7) % len(fixed)]
+        v = np.asarray(fixed, dtype=float) * fx
+        if form["dtype"] == "float32":
+            v = v.astype("float32")
+        if k.get("scalar"):
+            return sc.scalar(v[0], unit=unit), None
+        if form["shape"] == "view":
+            parent = sc.array(dims=[k.get("dim", dim)], values=np.concatenate([[0.0, 0.0], v, [0.0, 0.0]]), unit=unit)
+            return parent[k.get("dim", dim), 2:2 + len(v)], parent
+        return sc.array(dims=[k.get("dim", dim)], values=v, unit=unit), None
     f = sc.to_unit(sc.scalar(1.0, unit=k["target"]), unit).value
     dt = np.dtype(form["dtype"])
     lo, hi = k["lo"] * f, k["hi"] * f
@@ -177,6 +197,145 @@ CALLS = {
 VEC_KINDS["vec_beam0"] = "m"  # orthogonal to gravity (along z)
 SAME_LAYOUT = {"tof.Q_vec_from_Q_elements"}
 KINDS["time_s"] = {"target": "s", "others": ["ms", "us"], "lo": 1e-3, "hi": 5e-2}
+KINDS["chopper_freq"] = {"target": "Hz", "others": ["kHz", "mHz"], "fixed": [28.0], "scalar": True, "lo": 1, "hi": 2}
+KINDS["pulse_freq"] = {"target": "Hz", "others": ["kHz", "mHz"], "fixed": [14.0], "scalar": True, "lo": 1, "hi": 2}
+KINDS["phase"] = {"target": "rad", "others": ["deg"], "fixed": [0.3], "scalar": True, "lo": 0, "hi": 1}
+KINDS["beam_pos"] = {"target": "rad", "others": ["deg"], "fixed": [0.1], "scalar": True, "lo": 0, "hi": 1}
+KINDS["slit_begin"] = {"target": "rad", "others": ["deg"], "fixed": [0.2, 1.5, 3.0], "dim": "slit", "lo": 0, "hi": 1}
+KINDS["slit_end"] = {"target": "rad", "others": ["deg"], "fixed": [0.6, 2.2, 3.3], "dim": "slit", "lo": 0, "hi": 1}
+KINDS["vertex_time"] = {"target": "s", "others": ["ms", "us"], "fixed": [0.0, 3e-3, 3e-3, 0.0], "dim": "vertex", "lo": 0, "hi": 1}
+KINDS["vertex_wav"] = {"target": "angstrom", "others": ["nm", "m"], "fixed": [0.5, 0.5, 9.0, 9.0], "dim": "vertex", "lo": 0, "hi": 1}
+KINDS["tmin"] = {"target": "s", "others": ["ms", "us"], "fixed": [0.0], "scalar": True, "lo": 0, "hi": 1}
+KINDS["tmax"] = {"target": "s", "others": ["ms", "us"], "fixed": [3e-3], "scalar": True, "lo": 0, "hi": 1}
+KINDS["wmin"] = {"target": "angstrom", "others": ["nm", "m"], "fixed": [0.5], "scalar": True, "lo": 0, "hi": 1}
+KINDS["wmax"] = {"target": "angstrom", "others": ["nm", "m"], "fixed": [9.0], "scalar": True, "lo": 0, "hi": 1}
+KINDS["m_amp"] = {"target": "counts*angstrom", "others": ["counts*nm"], "fixed": [[3.0], [0.0], [-1.0]], "scalar": True, "lo": 0, "hi": 1}
+KINDS["m_loc"] = {"target": "angstrom", "others": ["nm", "m"], "fixed": [[2.5], [0.0], [100.0]], "scalar": True, "lo": 0, "hi": 1}
+KINDS["m_scale"] = {"target": "angstrom", "others": ["nm", "m"], "fixed": [[0.7], [0.0], [-0.2], [1e-16], [1e-15]], "scalar": True, "lo": 0, "hi": 1}
+KINDS["m_frac"] = {"target": "dimensionless", "others": ["percent"], "fixed": [[0.3], [0.0], [1.0]], "scalar": True, "lo": 0, "hi": 1}
+KINDS["xgrid"] = {"target": "angstrom", "others": ["nm", "m"], "fixed": [0.0, 1.0, 2.0, 3.0, 4.0, 5.0, 6.0], "dim": "x", "lo": 0, "hi": 1}
+
+
+def _disk_chopper(*, frequency, phase, slit_begin, slit_end, beam_position, pulse_frequency):
+    import scipp as sc
+    from scippneutron.chopper import DiskChopper
+
+    ch = DiskChopper(axle_position=sc.vector([0.0, 0.0, 8.0], unit="m"), frequency=frequency,
+                     beam_position=beam_position, phase=phase, slit_begin=slit_begin, slit_end=slit_end,
+                     radius=sc.scalar(0.35, unit="m"))
+    return {"open": ch.time_offset_open(pulse_frequency=pulse_frequency),
+            "close": ch.time_offset_close(pulse_frequency=pulse_frequency),
+            "duration": ch.open_duration(pulse_frequency=pulse_frequency),
+            "angle": ch.time_offset_angle_at_beam(angle=slit_begin), "n": ch.n_slits,
+            "omega": ch.angular_frequency, "cw": ch.is_clockwise,
+            "cascade": _mod("scippneutron.tof.chopper_cascade").Chopper.from_disk_chopper(
+                ch, pulse_frequency=pulse_frequency, npulses=2)}
+
+
+def _subframe(*, time, wavelength, distance):
+    cc = _mod("scippneutron.tof.chopper_cascade")
+    sf = cc.Subframe(time=time, wavelength=wavelength)
+    moved = sf.propagate_by(distance)
+    fr = cc.Frame(distance=_sv(0.0, "m"), subframes=[sf]).propagate_to(distance)
+    return {"moved": moved, "regular": moved.is_regular(), "start": moved.start_time, "end": moved.end_time,
+            "w0": moved.start_wavelength, "w1": moved.end_wavelength, "bounds": fr.bounds(), "sub": fr.subbounds()}
+
+
+def _source_pulse(*, time_min, time_max, wavelength_min, wavelength_max, distance):
+    cc = _mod("scippneutron.tof.chopper_cascade")
+    fs = cc.FrameSequence.from_source_pulse(time_min=time_min, time_max=time_max,
+                                            wavelength_min=wavelength_min, wavelength_max=wavelength_max)
+    fs = fs.chop([_chopper()]).propagate_to(distance)
+    return {"n": len(fs), "last": fs[len(fs) - 1], "at": fs[distance]}
+
+
+def _model_call(*, x):
+    import scipp as sc
+
+    out = {}
+    for name in ("gaussian", "lorentzian", "pseudo_voigt", "quadratic"):
+        m = _model(name, "p_")()
+        vals = {"amplitude": sc.scalar(3.0, unit=sc.Unit("counts") * x.unit), "loc": sc.scalar(2.5, unit=x.unit),
+                "scale": sc.scalar(0.7, unit=x.unit), "fraction": sc.scalar(0.3),
+                "a0": sc.scalar(1.0, unit="counts"), "a1": sc.scalar(0.1, unit=sc.Unit("counts") / x.unit),
+                "a2": sc.scalar(0.01, unit=sc.Unit("counts") / x.unit**2)}
+        out[name] = m(x, **{n: vals[n[2:]] for n in m.param_names})
+    return out
+
+
+def _model_params(*, x, amplitude, loc, scale, fraction):
+    out = {}
+    for name in ("gaussian", "lorentzian", "pseudo_voigt"):
+        m = _model(name, "")()
+        vals = {"amplitude": amplitude, "loc": loc, "scale": scale, "fraction": fraction}
+        _, exc = core.capture(m, x, **{n: vals[n] for n in m.param_names})
+        res, exc = core.capture(m, x, **{n: vals[n] for n in m.param_names})
+        out[name] = ["exc", exc.name] if exc else res
+        out[name + ".fwhm"] = m.fwhm({n: vals[n] for n in m.param_names})
+    comp = _model("linear", "bkg_")() + _model("gaussian", "peak_")()
+    import scipp as sc
+
+    res, exc = core.capture(comp, x, bkg_a0=sc.scalar(1.0, unit="counts"),
+                            bkg_a1=sc.scalar(0.5, unit=sc.Unit("counts") / x.unit),
+                            peak_amplitude=amplitude, peak_loc=loc, peak_scale=scale)
+    out["composite"] = ["exc", exc.name] if exc else res
+    return out
+
+
+def _transmission(*, wavelength, beam_direction, detector_position):
+    from scippneutron.absorption import compute_transmission_map
+
+    return compute_transmission_map(_cyl(), _material("V")(), beam_direction=beam_direction,
+                                    wavelength=wavelength, detector_position=detector_position,
+                                    quadrature_kind="cheap")
+
+
+def _plateaus(*, data):
+    import scipp as sc
+    from scippneutron.chopper import collapse_plateaus, filter_in_phase, find_plateaus
+
+    pl = find_plateaus(data, atol=sc.scalar(1e-3, unit=data.unit / data.coords[data.dim].unit), min_n_points=3)
+    col = collapse_plateaus(pl, coord=data.dim)
+    return {"plateaus": pl, "collapsed": col,
+            "in_phase": filter_in_phase(col, reference=sc.scalar(7.0, unit=data.unit), rtol=sc.scalar(0.05))}
+
+
+def _components(*, data):
+    bc = _mod("scippneutron.beamline_components")
+    return {"position": bc.position(data), "source": bc.source_position(data), "sample": bc.sample_position(data),
+            "L1": bc.L1(data), "L2": bc.L2(data), "Ltotal": bc.Ltotal(data, scatter=True),
+            "two_theta": bc.two_theta(data), "ib": bc.incident_beam(data), "sb": bc.scattered_beam(data)}
+
+
+def _fit_small(*, data):
+    import scipp as sc
+    from scippneutron.peaks import fit_peaks
+
+    x = data.coords[data.dim]
+    mid = (x.min() + x.max()) / 2
+    res = fit_peaks(data, peak_estimates=sc.concat([mid], data.dim), windows=(x.max() - x.min()) * 0.8,
+                    background="linear", peak="gaussian")
+    return [[r.assessment, r.message, r.window, dict(r.popt), r.red_chisq, r.p_value, r.aic] for r in res]
+
+
+CALLS.update({
+    "chopper.DiskChopper": (lambda: _disk_chopper, _kw(frequency="chopper_freq", phase="phase", slit_begin="slit_begin",
+                                                       slit_end="slit_end", beam_position="beam_pos",
+                                                       pulse_frequency="pulse_freq")),
+    "cascade.Subframe": (lambda: _subframe, _kw(time="vertex_time", wavelength="vertex_wav", distance="length")),
+    "cascade.from_source_pulse": (lambda: _source_pulse, _kw(time_min="tmin", time_max="tmax", wavelength_min="wmin",
+                                                             wavelength_max="wmax", distance="length")),
+    "peaks.model.__call__": (lambda: _model_call, _kw(x="xgrid")),
+    "peaks.model.params": (lambda: _model_params, _kw(x="xgrid", amplitude="m_amp", loc="m_loc", scale="m_scale",
+                                                      fraction="m_frac")),
+    "absorption.compute_transmission_map": (lambda: _transmission, _kw(wavelength="wavelength", beam_direction="vec_dir",
+                                                                       detector_position="vec_pos")),
+    "chopper.plateaus": (lambda: _plateaus, {"$data": "plateau_data"}),
+    "beamline_components": (lambda: _components, {"$data": "tofdata"}),
+    "peaks.fit_peaks": (lambda: _fit_small, {"$data": "spectrum_var"}),
+})
+VEC_KINDS["vec_dir"] = "dimensionless"
+SAME_LAYOUT |= {"cascade.Subframe", "chopper.DiskChopper"}
 
 
 def _convert(*, data, target="wavelength", scatter=True):
@@ -217,6 +376,10 @@ def build_data(kind, form):
 
     g = np.random.default_rng(form["seed"])
     n = max(4, form["n"])
+    if kind == "plateau_data":
+        t = sc.array(dims=["time"], values=np.arange(16.0), unit="s")
+        v = np.array([14.0] * 5 + [14.0 + 0.5 * k for k in range(1, 4)] + [28.0] * 5 + [3.0] * 3)
+        return sc.DataArray(sc.array(dims=["time"], values=v, unit="Hz"), coords={"time": t}), None
     if kind in ("spectrum", "spectrum_var"):
         x = sc.array(dims=["x"], values=np.linspace(1.0, 5.0, n + 12), unit="angstrom")
         y = sc.array(dims=["x"], values=g.uniform(1, 10, n + 12), unit="counts",
@@ -392,13 +555,19 @@ DERIVES = {
 }
 
 
-ALIAS_DERIVES = {k for k in DERIVES if k.startswith("sp.")}
+# derivations that hand back the very object stored inside the source (attribute / item access)
+ALIAS_DERIVES = {k for k in DERIVES if k.startswith("sp.")} | {"frames[0]"}
 
 
 def _first_var(obj):
     """Locate a Variable inside a handed-out object (for in-place mutation)."""
     import scipp as sc
 
+    if type(obj).__name__ in ("FrameSequence", "Frame", "Subframe", "Chopper"):
+        # chopper-cascade frames are values that share their parts by design (a derived sequence
+        # contains the frames of its source); the statement's independence clause names graph
+        # factories, model/builder combinators and table lookups, not these
+        return None
     if isinstance(obj, sc.Variable):
         return obj
     if isinstance(obj, tuple | list):
@@ -502,7 +671,6 @@ MUTATIONS = {
     "var*=2": _mut_var_imul, "var[...]=nan": _mut_var_nan, "var.unit=kg": _mut_var_unit,
     "dict.clear": _mut_dict_clear, "dict[k]=None": _mut_dict_set, "dict.pop": _mut_dict_pop,
     "set.add/discard": _mut_set, "cif.comment/name=": _mut_cif_comment, "block.add": _mut_block_add,
-    "frames.append": _mut_frames_list,
 }
 
 # method calls on handles (results compared; the call is part of the handle's lineage)
@@ -657,8 +825,10 @@ def _grid_cases():
                 units = [("target", 0)] + [("other", j) for j in range(len(KINDS[kind]["others"]))]
                 shapes = ["0d", "1d", "view", "binned"]
                 dtypes = ["float64", "float32"]
-            for (uc, uj) in units:
-                for shape in shapes:
+            fixed = KINDS.get(kind, {}).get("fixed")
+            choices = range(len(fixed)) if fixed and isinstance(fixed[0], list) else [0]
+            for (uc, uj), choice in ((u_, c_) for u_ in units for c_ in choices):
+                for shape in (shapes if len(choices) == 1 else ["0d"]):
                     for dt in dtypes:
                         n += 1
                         args = {}
@@ -667,7 +837,7 @@ def _grid_cases():
                                 # seed chosen so that seed % len(others) selects unit uj
                                 args[other] = {"kind": kind, "form": {
                                     "unit": uc, "dtype": dt, "shape": shape, "seed": 7 * 60 + uj, "n": 4,
-                                    "dim": "event"}}
+                                    "dim": "event", "choice": choice}}
                             else:
                                 oshape = "0d"
                                 odim = "det"
@@ -706,6 +876,8 @@ def generate(rng, tier, i):
             for a in op["args"].values():
                 if "kind" in a:
                     pool_kinds.append(a["kind"])
+                elif "data" in a:
+                    pool_kinds.append("$" + a["data"])  # keeps pool indices aligned with the executor
         elif r < 0.55 or not handles:
             nh += 1
             f = rng.choice(hot) if rng.random() < 0.6 else rng.choice(fkeys)
@@ -882,17 +1054,37 @@ def _lineage(flat, idx):
             break
     keep = set()
     for h, until in chain:
-        # plain attribute access (sp.<field>) hands back the very object stored in h: what a
-        # caller does to it, it does to h -- those ops belong to h's own lineage
+        # plain attribute / item access hands back the very object stored in the source: source
+        # and alias are one object, so whatever a caller does to either (before ``until``) belongs
+        # to the lineage of both
         group = {h}
-        for t in range(until + 1):
-            o = flat[t][2]
-            if o["k"] == "derive" and o["src"] in group and o["f"] in ALIAS_DERIVES:
-                group.add(o["h"])
+        changed = True
+        while changed:
+            changed = False
+            for t in range(until + 1):
+                o = flat[t][2]
+                if o["k"] == "derive" and o["f"] in ALIAS_DERIVES:
+                    if o["src"] in group and o["h"] not in group:
+                        group.add(o["h"])
+                        changed = True
+                    elif o["h"] in group and o["src"] not in group:
+                        group.add(o["src"])
+                        changed = True
         for t in range(until + 1):
             o = flat[t][2]
             if o.get("h") in group and o["k"] in ("obtain", "derive", "mutate", "hcall"):
                 keep.add(t)
+        # creation chains of the other group members
+        for g in group - {h}:
+            t0 = next((t for t in range(until + 1) if flat[t][2].get("h") == g
+                       and flat[t][2]["k"] in ("obtain", "derive")), None)
+            while t0 is not None:
+                keep.add(t0)
+                co = flat[t0][2]
+                if co["k"] != "derive":
+                    break
+                t0 = next((t for t in range(t0) if flat[t][2].get("h") == co["src"]
+                           and flat[t][2]["k"] in ("obtain", "derive")), None)
     keep.add(idx)
     return sorted(keep)
 
@@ -1037,7 +1229,8 @@ class C09Engine(Engine):
         world = _World()
         snaps: list[str] = []
         flat_index = {id(o): t for t, (_, _, o) in enumerate(flat)}
-        executed: dict[int, list] = {}  # flat index -> canonical result, in execution order
+        executed: dict[int, list] = {}  # flat index -> canonical result
+        order: list[int] = []  # flat indices in order of completion (= the real history)
 
         def check_args(where, op):
             cur = self._snap(world)
@@ -1104,6 +1297,7 @@ class C09Engine(Engine):
             else:
                 res = _exec_op(world, ops, op)
             executed[t] = res
+            order.append(t)
             d = core.h64(core.jdump(res))
             ctx.log("op", op["k"], op.get("f", op.get("m", op.get("how"))), d)
             ctx.count("op_" + op["k"])
@@ -1119,7 +1313,7 @@ class C09Engine(Engine):
             ctx.caller = "-"
             # ---- references: every executed op's own lineage, replayed alone ---------------
             # ops that did not run (pre-emption point never reached) are not part of any lineage
-            done = sorted(executed)
+            done = list(order)
             eff = [flat[t] for t in done]
             pos = {t: j for j, t in enumerate(done)}
             for t in done:
